@@ -599,8 +599,8 @@ def run_conformance(H, quick, want_b3=False):
     first, last = c09.first_last()
     g = PC.Grammar()
     ob = PC.conformance_obligations(g, want_b3=want_b3, want_b12=True)
-    nfull = int(os.environ.get("C07_N", "0")) or (3 if quick else 5)
-    nfam = int(os.environ.get("C07_NF", "0")) or (5 if quick else 7)
+    nfull = int(os.environ.get("C07_N", "0")) or (3 if quick else 4)
+    nfam = int(os.environ.get("C07_NF", "0")) or (5 if quick else 6)
     runs = [("all %d token kinds, %d tokens" % (len(PC.K.KINDS), n), n, None) for n in range(1, nfull + 1)]
     for fam, alpha in FAMILIES.items():
         for n in range(nfull + 1, nfam + 1):
